@@ -123,6 +123,8 @@ def real_therm(kind):
     from kawin.tests import datasets as ds
     if kind == 'real_nicral_fcc':
         t = GeneralThermodynamics(ds.NICRAL_TDB, ['NI', 'CR', 'AL'], ['FCC_A1'])
+    elif kind == 'real_nicral_fcc_perm':
+        t = GeneralThermodynamics(ds.NICRAL_TDB, ['NI', 'AL', 'CR'], ['FCC_A1'])
     elif kind == 'real_fecrni':
         t = GeneralThermodynamics(ds.FECRNI_DB, ['FE', 'CR', 'NI'], ['FCC_A1', 'BCC_A2'])
     else:
@@ -435,3 +437,72 @@ def pilot_dt(cfg):
     if not (math.isfinite(dt) and dt > 0):
         raise core.Inconclusive('non-finite stability step from the initial state (undefined mobilities under this averaging rule)')
     return dt
+
+
+# ----------------------------------------------------------------------------- C11: paired runs with permuted element lists
+def execute_permuted_pair(rec):
+    """Two SinglePhaseModel runs built from one record that differ only in the order of the solute elements
+    (profiles, boundary conditions and the diffusivity provider are keyed by element name): same time grid, permuted
+    profiles at every step, judged with the local-jump rule of C11."""
+    F = core.Failures()
+    cnt = {'compared_steps': 0, 'steps': 0}
+    cfg0 = rec['cfg']
+    els = list(cfg0['all_elements'])
+    perm = list(rec['perm'])                       # permutation of the solutes (indices into els[1:])
+    dt0 = pilot_dt(cfg0)
+    total = sum(o['k'] for o in rec['ops']) * dt0
+    runs = []
+    for variant in ('base', 'perm'):
+        cfg = resolve_schedule(copy.deepcopy(cfg0), total)
+        pp = None
+        if variant == 'perm':
+            cfg['all_elements'] = [els[0]] + [els[1:][i] for i in perm]
+            pp = perm
+        if cfg['provider'] == 'synth':
+            m, info = build(cfg, provider_perm=pp)
+        else:
+            cfg['provider'] = 'real_nicral_fcc' if variant == 'base' else 'real_nicral_fcc_perm'
+            m, info = build(cfg)
+        m.addCouplingModel(CapObserver(250))
+        for op in rec['ops']:
+            try:
+                m.solve(op['k'] * dt0, solverType=SolverType.EXPLICITEULER if op['it'] == 'euler' else SolverType.RK4)
+            except StepCap:
+                break
+            except Exception as e:  # noqa
+                raise core.Inconclusive('solve raised ' + type(e).__name__)
+        runs.append(m)
+    a, b = runs
+    ta, tb = np.asarray(a._recordedTime, dtype=float), np.asarray(b._recordedTime, dtype=float)
+    cnt['steps'] = len(ta) - 1
+    if len(ta) != len(tb):
+        F.add('C11.element_order_time_grid', f'element order {els[1:]} took {len(ta) - 1} steps, order {[els[1:][i] for i in perm]} took {len(tb) - 1}', what='diffusion')
+    n = min(len(ta), len(tb))
+    prev = 0.0
+    for k in range(n):
+        xa = np.asarray(a._recordedX[k], dtype=float)
+        xb = np.asarray(b._recordedX[k], dtype=float)
+        # row j of the permuted run is solute perm[j] of the base run
+        xb_as_base = np.zeros_like(xa)
+        for j, i in enumerate(perm):
+            xb_as_base[i] = xb[j]
+        s = np.maximum(np.abs(xa), np.abs(xb_as_base))
+        d = float(np.max(np.where(s > 0, np.abs(xa - xb_as_base) / np.maximum(s, 1e-300), 0.0)))
+        dt_ = abs(ta[k] - tb[k]) / max(abs(ta[k]), 1e-300) if ta[k] != tb[k] else 0.0
+        d = max(d, dt_)
+        cnt['compared_steps'] += 1
+        if d > 1e-9 and prev < 1e-12:
+            F.add('C11.element_order_jump', f'orders {els[1:]} vs {[els[1:][i] for i in perm]}: discrepancy jumps from {prev:.2e} to {d:.2e} at recorded step {k} (t={ta[k]!r} vs {tb[k]!r})', what='diffusion')
+            break
+        if d > 1e-6:
+            F.add('C11.element_order_drift', f'orders {els[1:]} vs {[els[1:][i] for i in perm]}: discrepancy {d:.2e} at recorded step {k}', what='diffusion')
+            break
+        prev = d
+    sig = f"elements_diffusion:{cfg0['provider']}:{len(els)}:" + ','.join(sorted(set(o['it'] for o in rec['ops'])))
+    return core.result(F, sig=sig, nontrivial=cnt['compared_steps'] >= 10, counters=cnt, digest='')
+
+
+def shrink_candidates(rec):
+    from ksim.props import c04
+    for r in c04.shrink_candidates(rec):
+        yield r
